@@ -3,7 +3,7 @@
    and every operation sequence: outputs, Len and IsEmpty after every operation. *)
 From Coq Require Import ZArith List Bool Arith Lia.
 Import ListNotations.
-From GV Require Import C04.Model C04.Heap C04.Seq.
+From GV Require Import C04.Model C04.Heap C04.Seq C04.Pow2.
 Open Scope Z_scope.
 
 Section Ring.
@@ -49,7 +49,7 @@ Section Ring.
 
   (* model state s represents the FIFO content q *)
   Definition rinv (s : ringst) (q : list msg) : Prop :=
-    rmask s = size - 1 /\ length (rcells s) = Z.to_nat size /\ rpend s = None /\
+    rmask s = size - 1 /\ length (rcells s) = Z.to_nat size /\
     0 <= rdeq s <= renq s /\ renq s <= rdeq s + size /\ Z.of_nat (length q) = renq s - rdeq s /\
     (forall p, rdeq s <= p < renq s ->
        nth (idx p) (rcells s) dflt = mkCell (p + 1) (Some (nth (Z.to_nat (p - rdeq s)) q dmsg))) /\
@@ -78,7 +78,7 @@ Section Ring.
     rinv (fst (ring_put s m)) (fq (fst (menq (fifo_spec (Some size) false) (mkFifo q None) m))).
   Proof.
     pose proof size_ge2 as Hs2.
-    intros [Hm [Hl [Hp [Hd [He [Hq [Hfull Hfree]]]]]]].
+    intros [Hm [Hl [Hd [He [Hq [Hfull Hfree]]]]]].
     unfold ring_put. rewrite (cell_at_idx s (renq s) Hm ltac:(lia)).
     cbn [menq fifo_spec fq fpend]. rewrite Hq.
     destruct (Z.ltb_spec (renq s - rdeq s) size) as [Hlt|Hge].
@@ -109,7 +109,7 @@ Section Ring.
     rinv (fst (ring_get s)) (fq (fst (mdeq (fifo_spec (Some size) false) (mkFifo q None)))).
   Proof.
     pose proof size_ge2 as Hs2.
-    intros [Hm [Hl [Hp [Hd [He [Hq [Hfull Hfree]]]]]]].
+    intros [Hm [Hl [Hd [He [Hq [Hfull Hfree]]]]]].
     unfold ring_get. rewrite (cell_at_idx s (rdeq s) Hm ltac:(lia)).
     cbn [mdeq fifo_spec fq fpend].
     destruct q as [|x r].
@@ -140,7 +140,7 @@ Section Ring.
   Lemma rinv_obs s q : rinv s q ->
     ring_len s = Z.of_nat (length q) /\ (ring_len s =? 0) = match q with [] => true | _ => false end.
   Proof.
-    intros [_ [_ [_ [Hd [He [Hq _]]]]]]. unfold ring_len.
+    intros [_ [_ [Hd [He [Hq _]]]]]. unfold ring_len.
     destruct (Z.leb_spec (renq s) (rdeq s)).
     - assert (length q = 0%nat) by lia. destruct q; [split; reflexivity | discriminate].
     - split; [lia|]. destruct q; [simpl in Hq; lia|]. apply Z.eqb_neq. lia.
@@ -156,7 +156,7 @@ Section Ring.
   Proof.
     pose proof size_ge2 as Hs2. unfold ring_init, rinv. cbn [rcells rmask renq rdeq rpend].
     rewrite map_length, seq_length.
-    split; [reflexivity|]. split; [reflexivity|]. split; [reflexivity|].
+    split; [reflexivity|]. split; [reflexivity|].
     split; [lia|]. split; [lia|]. split; [reflexivity|]. split.
     - intros p Hp. lia.
     - intros p Hp. rewrite Z.add_0_l in Hp.
@@ -182,6 +182,72 @@ Section Ring.
     - intros s [q p] [Hp HR]. simpl in HR. destruct (rinv_obs s q HR) as [A B]. cbn [mlen mempty fifo_spec fq]. split; assumption.
     - split; [reflexivity | apply rinv_init].
   Qed.
+  (* ---- BoundedMailbox: the same ring, a Put on a full ring blocks until the next Get ---- *)
+  Definition with_pend (s : ringst) (p : option msg) : ringst :=
+    mkRing (rcells s) (rmask s) (renq s) (rdeq s) p.
+
+  Lemma rinv_pend s q p : rinv s q -> rinv (with_pend s p) q.
+  Proof. intros H. exact H. Qed.
+
+  Lemma put_pend s m : rpend (fst (ring_put s m)) = rpend s.
+  Proof. unfold ring_put. destruct (_ =? 0); reflexivity. Qed.
+
+  Lemma get_pend s : rpend (fst (ring_get s)) = rpend s.
+  Proof. unfold ring_get. destruct (_ =? 0); reflexivity. Qed.
+
+  Definition wrel (s : ringst) (t : fifost) : Prop := rinv s (fq t) /\ rpend s = fpend t.
+
+  Lemma wrel_enq s t m : wrel s t ->
+    snd (wb_enq s m) = snd (menq (fifo_spec (Some size) true) t m) /\
+    wrel (fst (wb_enq s m)) (fst (menq (fifo_spec (Some size) true) t m)).
+  Proof.
+    intros [HR Hp]. destruct t as [q pd]. cbn [fq fpend] in *.
+    destruct (rinv_put s q m HR) as [A B]. unfold wb_enq.
+    destruct (ring_put s m) as [s' r] eqn:E. cbn [fst snd] in A, B.
+    cbn [menq fifo_spec fq fpend] in *.
+    destruct (Z.of_nat (length q) <? size) eqn:Hl; cbn [fst snd] in *.
+    - subst r. cbn [Z.eqb Pos.eqb fst snd]. split; [reflexivity|]. split; [exact B|].
+      cbn [fpend]. rewrite <- Hp. replace s' with (fst (ring_put s m)) by (rewrite E; reflexivity). apply put_pend.
+    - subst r. cbn [Z.eqb fst snd]. split; [reflexivity|]. split; [exact HR | reflexivity].
+  Qed.
+
+  Lemma wrel_deq s t : wrel s t ->
+    snd (wb_deq s) = snd (mdeq (fifo_spec (Some size) true) t) /\
+    wrel (fst (wb_deq s)) (fst (mdeq (fifo_spec (Some size) true) t)).
+  Proof.
+    pose proof size_ge2 as Hs2.
+    intros [HR Hp]. destruct t as [q pd]. cbn [fq fpend] in *.
+    destruct (rinv_obs s q HR) as [Hlen Hemp]. unfold wb_deq.
+    cbn [mdeq fifo_spec fq fpend].
+    destruct q as [|x r].
+    - rewrite Hlen. cbn [length Z.of_nat Z.gtb Z.compare fst snd]. split; [reflexivity|]. split; [exact HR | exact Hp].
+    - assert (Hg : (ring_len s >? 0) = true) by (apply Z.gtb_lt; rewrite Hlen; cbn [length]; lia).
+      rewrite Hg. destruct (rinv_get s (x :: r) HR) as [A B].
+      cbn [mdeq fifo_spec fq fpend fst snd] in A, B.
+      pose proof (get_pend s) as Hgp.
+      destruct (ring_get s) as [s' res] eqn:E. cbn [fst snd] in *. subst res.
+      rewrite Hgp, Hp. destruct pd as [p|].
+      + (* the blocked Put goes in now: there is room *)
+        cbn [fst snd]. split; [reflexivity|].
+        destruct (rinv_put (with_pend s' None) r p (rinv_pend s' r None B)) as [C D].
+        cbn [menq fifo_spec fq fpend] in C, D.
+        assert (Hroom : (Z.of_nat (length r) <? size) = true).
+        { apply Z.ltb_lt. destruct HR as [_ [_ [Hd [He [Hq _]]]]]. cbn [length] in Hq. lia. }
+        rewrite Hroom in C, D. cbn [fst snd] in C, D.
+        split; [exact D|]. cbn [fpend]. rewrite put_pend. reflexivity.
+      + cbn [fst snd]. split; [reflexivity|]. split; [exact B|]. cbn [fpend]. rewrite Hgp. exact Hp.
+  Qed.
+
+  Theorem wb_ring_refines_fifo : forall ops,
+    mrun (wb_ring_model size) (minit (wb_ring_model size)) ops
+    = mrun (fifo_spec (Some size) true) (minit (fifo_spec (Some size) true)) ops.
+  Proof.
+    intros ops. apply (sim_run (wb_ring_model size) (fifo_spec (Some size) true) wrel).
+    - intros s t m HR. exact (wrel_enq s t m HR).
+    - intros s t HR. exact (wrel_deq s t HR).
+    - intros s t [HR _]. destruct (rinv_obs s (fq t) HR) as [A B]. cbn [mlen mempty fifo_spec wb_ring_model]. split; assumption.
+    - split; [apply rinv_init | reflexivity].
+  Qed.
 End Ring.
 
 (* the mailbox as constructed: capacity rounded by nextPowerOfTwo *)
@@ -192,22 +258,35 @@ Proof.
   intros cap k Hk Hp ops. unfold nbb_model. rewrite Hp. apply (ring_refines_fifo k Hk).
 Qed.
 
-(* the rounding itself, for every requested capacity up to 2^12 + 1 (finite sweep): the result is a
-   power of two >= max(capacity, 2) and < 2 * max(capacity, 2) *)
-Definition pow2_ok (n : Z) : bool :=
-  let r := nextPowerOfTwo n in
-  (r =? 2 ^ Z.log2_up (Z.max n 2)) && (Z.max n 2 <=? r) && (r <? 2 * Z.max n 2).
-
-Lemma pow2_sweep : forallb pow2_ok (map Z.of_nat (seq 0 (Z.to_nat 4098))) = true.
-Proof. vm_compute. reflexivity. Qed.
-
-Theorem nextPowerOfTwo_rounds : forall n, 0 <= n <= 4097 ->
-  nextPowerOfTwo n = 2 ^ Z.log2_up (Z.max n 2) /\ Z.max n 2 <= nextPowerOfTwo n < 2 * Z.max n 2.
+(* for every requested capacity (up to 2^62): the mailbox is the FIFO queue whose capacity is the least
+   power of two >= max(capacity, 2) *)
+Theorem nbb_refines_fifo_all : forall cap, cap <= 2 ^ 62 -> forall ops,
+  mrun (nbb_model cap) (minit (nbb_model cap)) ops =
+  mrun (fifo_spec (Some (2 ^ Z.log2_up (Z.max cap 2))) false)
+       (minit (fifo_spec (Some (2 ^ Z.log2_up (Z.max cap 2))) false)) ops.
 Proof.
-  intros n Hn. pose proof pow2_sweep as H. rewrite forallb_forall in H.
-  assert (Hin : In n (map Z.of_nat (seq 0 (Z.to_nat 4098)))).
-  { apply in_map_iff. exists (Z.to_nat n). split; [lia|]. apply in_seq. lia. }
-  specialize (H n Hin). unfold pow2_ok in H. apply andb_prop in H. destruct H as [H H3].
-  apply andb_prop in H. destruct H as [H1 H2].
-  apply Z.eqb_eq in H1. apply Z.leb_le in H2. apply Z.ltb_lt in H3. lia.
+  intros cap Hc ops. apply nbb_refines_fifo.
+  - apply (nextPowerOfTwo_bounds cap Hc).
+  - apply nextPowerOfTwo_spec. exact Hc.
 Qed.
+
+(* BoundedMailbox (Workiva ring, at least two cells): blocking FIFO queue of that capacity *)
+Theorem wb_refines_fifo_all : forall cap, cap <= 2 ^ 62 -> forall ops,
+  mrun (wb_model cap) (minit (wb_model cap)) ops =
+  mrun (fifo_spec (Some (2 ^ Z.log2_up (Z.max cap 2))) true)
+       (minit (fifo_spec (Some (2 ^ Z.log2_up (Z.max cap 2))) true)) ops.
+Proof.
+  intros cap Hc ops. unfold wb_model. rewrite (nextPowerOfTwo_spec cap Hc).
+  apply wb_ring_refines_fifo. apply (nextPowerOfTwo_bounds cap Hc).
+Qed.
+
+(* Non-vacuity: capacity 3 is rounded to 4 cells (k = 2); the fifth Enqueue is refused, positions wrap
+   around the ring, order is kept. *)
+Example ring_capacity_three :
+  nextPowerOfTwo 3 = 2 ^ 2 /\
+  mrun (nbb_model 3) (minit (nbb_model 3))
+       [Enq (mkMsg 1 0 0); Enq (mkMsg 2 0 0); Enq (mkMsg 3 0 0); Enq (mkMsg 4 0 0); Enq (mkMsg 5 0 0);
+        Deq; Deq; Enq (mkMsg 6 0 0); Enq (mkMsg 7 0 0); Enq (mkMsg 8 0 0); Deq; Deq; Deq; Deq; Deq]
+  = [(1,1,0); (1,2,0); (1,3,0); (1,4,0); (0,4,0); (1,3,0); (2,2,0); (1,3,0); (1,4,0); (0,4,0);
+     (3,3,0); (4,2,0); (6,1,0); (7,0,1); (-1,0,1)].
+Proof. split; vm_compute; reflexivity. Qed.
